@@ -52,6 +52,8 @@ fn small_xlsb() -> Vec<u8> {
         xlsb::BItem::Cell { row: 1, col: 0, style: 0, val: xlsb::BVal::Real(1.5) }, xlsb::BItem::Cell { row: 1, col: 1, style: 0, val: xlsb::BVal::St("st".into()) },
         xlsb::BItem::Cell { row: 2, col: 0, style: 0, val: xlsb::BVal::FmlaNum(3.0, vec![0x44, 0, 0, 0, 0, 0, 0xC0, 0x1E, 1, 0, 0x03]) }, xlsb::BItem::Cell { row: 2, col: 1, style: 0, val: xlsb::BVal::FmlaStr("f".into(), vec![0x3A, 0, 0, 1, 0, 0, 0, 1, 0]) },
         xlsb::BItem::Cell { row: 3, col: 0, style: 0, val: xlsb::BVal::Bool(true) }, xlsb::BItem::Cell { row: 3, col: 1, style: 0, val: xlsb::BVal::Err(7) },
+        // calls without arguments: PI() as PtgFunc, ROW() as PtgFuncVar with a count of 0
+        xlsb::BItem::Cell { row: 4, col: 0, style: 0, val: xlsb::BVal::FmlaNum(3.14, vec![0x21, 19, 0]) }, xlsb::BItem::Cell { row: 4, col: 1, style: 0, val: xlsb::BVal::FmlaNum(5.0, vec![0x22, 0, 8, 0]) },
     ];
     let b = xlsb::BBook { sheets: vec![xlsb::BSheet::new("S1", items), xlsb::BSheet::new("S2", vec![xlsb::BItem::Cell { row: 0, col: 0, style: 0, val: xlsb::BVal::Real(1.0) }])], sst: vec!["s0".into(), "s1".into()], fmts: vec![(164, "yyyy\\-mm".into())], xfs: vec![0, 14, 164],
         extern_sheets: Some(vec![(1, 1)]), names: vec![("n".into(), vec![0x3A, 0, 0, 0, 0, 0, 0, 0, 0])], ..Default::default() };
